@@ -56,7 +56,29 @@ func (a c12Arg) goValue() interface{} {
 	case "bool":
 		return a.Bits != 0
 	}
+	if v, ok := alienValue(a.T); ok {
+		return v
+	}
 	panic("c12Arg type " + a.T)
+}
+
+// alienTypes are Go values that no item takes: whatever receives one must refuse it.
+var alienTypes = []string{"nil", "struct", "intslice", "nilptr", "map"}
+
+func alienValue(t string) (interface{}, bool) {
+	switch t {
+	case "nil":
+		return nil, true
+	case "struct":
+		return struct{}{}, true
+	case "intslice":
+		return []int{1}, true
+	case "nilptr":
+		return (*int)(nil), true
+	case "map":
+		return map[string]int{"x": 1}, true
+	}
+	return nil, false
 }
 
 func goTypeRange(t string) (lo, hi *big.Int) {
@@ -85,6 +107,9 @@ func (a c12Arg) math() *big.Rat {
 		}
 		return new(big.Rat).SetFloat64(f)
 	case "string", "bool":
+		return nil
+	}
+	if _, alien := alienValue(a.T); alien {
 		return nil
 	}
 	lo, _ := goTypeRange(a.T)
@@ -232,7 +257,10 @@ func checkC12Value(c c12Case) (ci caseInfo, err error) {
 	var wantF64 uint64
 	var wantBool bool
 	nearBoundary := false
+	_, alien := alienValue(c.Arg.T)
 	switch {
+	case alien:
+		mustRefuse, nearBoundary = true, true
 	case c.Arg.T == "string":
 		if kind == model.B && strings.HasPrefix(c.Arg.S, "0b") {
 			v, wf := binaryStringValue(c.Arg.S)
@@ -475,6 +503,9 @@ func describeArg(a c12Arg) string {
 	case "float32", "float64":
 		return fmt.Sprintf("%v(bits %#x)", a.goValue(), a.Bits)
 	}
+	if _, alien := alienValue(a.T); alien {
+		return fmt.Sprintf("%#v", a.goValue())
+	}
 	if m := a.math(); m != nil {
 		return m.Num().String()
 	}
@@ -498,6 +529,10 @@ func genC12Value(t *rapid.T) c12Case {
 		ViaFill: rapid.Bool().Draw(t, "viaFill"),
 	}
 	kind := c.Target
+	if rapid.IntRange(0, 19).Draw(t, "alienType") == 19 {
+		c.Arg = c12Arg{T: rapid.SampledFrom(alienTypes).Draw(t, "alien")}
+		return c
+	}
 	switch {
 	case kind == model.BOOLEAN:
 		if rapid.IntRange(0, 3).Draw(t, "numberIntoBool") == 3 {
